@@ -111,7 +111,7 @@ Filler ==   \* always enabled once somebody is a member: a failing or stale call
             \E n \in {RandomElement(1..Len(commits))} : DeliverCommit(q, n)
 
 SimPropose ==
-    \/ \E p \in Parties : GenKeyPackage(p)
+    \/ \E p \in Parties : \E lr \in {RandomElement({b \in LrChoices : Z = 0})} : GenKeyPackage(p, lr)
     \/ \E p \in {RandomElement(Mem \cup {Creator : z \in {Z}})} : \E i \in 1..Len(kps) : ProposeAdd(p, i)
     \/ \E p \in Mem : RandomElement(1..(3 + Z)) = 1 /\ \E l \in {RandomElement(LeafSlots(grp[p].tree))} : ProposeRemove(p, l)
     \/ \E p \in Mem : ProposeUpdate(p)
@@ -154,7 +154,7 @@ SimMisc ==
     \/ Filler
     \/ \E q \in Parties : Retire(q)
     \/ Len(props) > 0 /\ \E q \in Mem : \E j \in {RandomElement(1..Len(props))} : DeliverProposal(q, j)
-    \/ \E p \in Parties : GenKeyPackage(p)
+    \/ \E p \in Parties : \E lr \in {RandomElement({b \in LrChoices : Z = 0})} : GenKeyPackage(p, lr)
 
 SimOther ==
     \E c \in {RandomElement(1..(100 + Z))} :
@@ -181,7 +181,7 @@ BootAdds(g) ==
 Bootstrap ==
     IF ProgressEnabled THEN Progress
     ELSE IF \E p \in Parties : ~HasGroup(p) /\ ~\E i \in Outstanding : kps[i].owner = p
-    THEN \E p \in Parties : GenKeyPackage(p)
+    THEN \E p \in Parties : \E lr \in {RandomElement({b \in LrChoices : Z = 0})} : GenKeyPackage(p, lr)
     ELSE \E p \in {RandomElement({q \in Mem : Z = 0})} : Commit(p, BootAdds(grp[p]), FALSE)
 
 \* the observer is (re)started now and then and is fed the public traffic with priority (so that it keeps up)
